@@ -10,7 +10,12 @@
    transcribed functions (level 1, drift) and the reference predicate Enough (level 2,
    viol) are evaluated exactly at powers up to MaxTotalVotingPower.
 
-   line: [ev |-> "Check", src, frame, kinds, ids, chain, h, bid, c, runs]
+   line: [ev |-> "Check", src, frame, kinds, wire, ids, chain, h, bid, c, runs]
+     wire     [path, total, proposer, prio]: how the ValidatorSet object came into being -- built in memory
+              (path "none") or decoded from its proto form after an adversary rewrote the unauthenticated
+              fields (total_voting_power, proposer record, priorities); per run: enc_total = the number written
+              into total_voting_power, dec = [ok, err] what the decoder returned.  The reference predicate is
+              evaluated on the members' REAL powers (pv): a decoded set is the same abstract set
      ids      validator ids in the order of ValidatorSet.Validators
      c        the commit handed to the functions (abstract: who signed what, per slot)
      runs     sequence of [scale, pv, full, light, trust]
@@ -35,13 +40,31 @@ DriftOf(fn, scale, spec, obs) ==
   FailIf(SpecRes(spec) # obs,
          [l |-> l, what |-> fn \o " differs from spec at scale " \o scale, spec |-> spec.err, obs |-> obs.err])
 
-RunDrift(e, r) ==
+\* the ValidatorSet object of a run according to the spec
+DecodedOfRun(e, r) ==
   LET vs == ValSetOfRun(e, r) IN
-       DriftOf("VerifyCommit", r.scale, VerifyCommit(vs, e.c, e.chain, e.bid, e.h), ObsRes(r.full))
-  \cup DriftOf("VerifyCommitLight", r.scale, VerifyCommitLight(vs, e.c, e.chain, e.bid, e.h), ObsRes(r.light))
+  IF e.wire.path = "none" THEN [ok |-> TRUE, err |-> "none", set |-> InMemory(vs)]
+  ELSE DecodeValSet(Encode(vs, IF e.wire.proposer = "nil" THEN "nil" ELSE "present", BNNorm(r.enc_total)))
+NoDecode == Reject("nodecode")
+
+RunDrift(e, r) ==
+  LET d == DecodedOfRun(e, r) IN
+       \* (the validators hash covers none of the rewritten fields: a decoded set hashes like the original)
+       FailIf(d.ok # r.dec.ok \/ d.err # r.dec.err \/ (r.dec.ok /\ ~r.dec.hash_same),
+              [l |-> l, what |-> "ValidatorSetFromProto differs from spec at scale " \o r.scale, spec |-> d.err, obs |-> r.dec.err])
+  \cup DriftOf("VerifyCommit", r.scale,
+               IF d.ok THEN VerifyCommitOn(d.set, e.c, e.chain, e.bid, e.h) ELSE NoDecode, ObsRes(r.full))
+  \cup DriftOf("VerifyCommitLight", r.scale,
+               IF d.ok THEN VerifyCommitLightOn(d.set, e.c, e.chain, e.bid, e.h) ELSE NoDecode, ObsRes(r.light))
   \cup UNION {DriftOf("VerifyCommitLightTrusting", r.scale,
-                      VerifyCommitLightTrusting(vs, e.c, e.chain, BNNorm(r.trust[i].num), BNNorm(r.trust[i].den)),
+                      IF d.ok THEN VerifyCommitLightTrustingOn(d.set, e.c, e.chain, BNNorm(r.trust[i].num), BNNorm(r.trust[i].den))
+                              ELSE NoDecode,
                       ObsRes(r.trust[i].res)) : i \in 1..Len(r.trust)}
+
+\* where the set came from, as a prefix of the violation class
+Origin(e) == IF e.wire.path = "none" THEN ""
+             ELSE IF e.wire.total # "zero" THEN "decoded-set:forged-total/"
+             ELSE "decoded-set/"
 
 \* the OBSERVED verdicts against the reference predicate
 RunViol(e, r) ==
@@ -54,21 +77,21 @@ RunViol(e, r) ==
   IN
        FailIf(~SoundFull(in, oF),
               [l |-> l, inv |-> "SoundFull",
-               class |-> "VerifyCommit:" \o WhyNotEnough(vs, e.c, e.chain, e.h, e.bid, two, three)])
+               class |-> Origin(e) \o "VerifyCommit:" \o WhyNotEnough(vs, e.c, e.chain, e.h, e.bid, two, three)])
   \cup FailIf(~SoundLight(in, oL),
               [l |-> l, inv |-> "SoundLight",
-               class |-> "VerifyCommitLight:" \o WhyNotEnough(vs, e.c, e.chain, e.h, e.bid, two, three)])
+               class |-> Origin(e) \o "VerifyCommitLight:" \o WhyNotEnough(vs, e.c, e.chain, e.h, e.bid, two, three)])
   \cup UNION {LET num == BNNorm(r.trust[i].num)
                   den == BNNorm(r.trust[i].den) IN
               FailIf(~SoundTrusting(in, num, den, ObsRes(r.trust[i].res)),
                      [l |-> l, inv |-> "SoundTrusting",
-                      class |-> "VerifyCommitLightTrusting:" \o
+                      class |-> Origin(e) \o "VerifyCommitLightTrusting:" \o
                                 WhyNotEnough(vs, e.c, e.chain, e.c.height, e.c.bid, num, den)])
                 : i \in 1..Len(r.trust)}
   \cup FailIf(~Agree(in, oF, oL),
               [l |-> l, inv |-> "Agree",
-               class |-> IF oF.ok THEN "full_accepts_light_rejects:" \o oL.err
-                                  ELSE "light_accepts_full_rejects:" \o oF.err])
+               class |-> Origin(e) \o (IF oF.ok THEN "full_accepts_light_rejects:" \o oL.err
+                                  ELSE "light_accepts_full_rejects:" \o oF.err)])
 
 StepCheck(e) ==
   /\ drift' = drift \cup UNION {RunDrift(e, e.runs[j]) : j \in 1..Len(e.runs)}
